@@ -78,6 +78,7 @@ type conductor struct {
 	c       bcaseT
 	l       *logging.Logger
 	stale   *slog.Logger
+	foreign int
 	trace   []evT
 	current int
 	resp    chan workerMsg
@@ -159,6 +160,9 @@ func (t traceWriter) Write(p []byte) (int, error) {
 			continue
 		}
 		msg, _ := m["msg"].(string)
+		if strings.HasPrefix(msg, "bystander") {
+			t.c.foreign++ // a record of the other Logger in this Logger's output
+		}
 		g, seq, derived, ok := parseMsg(msg)
 		if !ok {
 			continue
@@ -262,6 +266,18 @@ func runB(k bcaseT, r *hx.Rand) (bcaseT, []evT, bool, map[string]int) {
 		panic(err)
 	}
 	c.stale = c.l.Logger()
+	// a bystander: a second, independent Logger that is buffering for the whole history
+	var by *logging.Logger
+	byOut := &lockedBuf{}
+	if !k.Custom {
+		by, err = logging.New(logging.WithJSONHandler(), logging.WithOutput(byOut))
+		if err != nil {
+			panic(err)
+		}
+		by.StartBuffering()
+		by.Warn("bystander:0")
+		by.With("w", 1).Warn("bystander:1")
+	}
 	status := make([]int, n)
 	next := make([]int, n) // index of the op in progress (status gate) or of the next op
 	for w := 0; w < n; w++ {
@@ -399,6 +415,20 @@ func runB(k bcaseT, r *hx.Rand) (bcaseT, []evT, bool, map[string]int) {
 		}
 	}
 	trace := append([]evT(nil), c.trace...)
+	if by != nil && !hung {
+		by.Warn("bystander:2")
+		_ = by.FlushBuffer()
+		got := string(byOut.b.Bytes())
+		want := []string{`"msg":"bystander:0"`, `"msg":"bystander:1","w":1`, `"msg":"bystander:2"`}
+		lines := strings.Split(strings.TrimRight(got, "\n"), "\n")
+		cross := len(lines) != len(want)
+		for i := 0; !cross && i < len(want); i++ {
+			cross = !strings.Contains(lines[i], want[i])
+		}
+		if cross || c.foreign > 0 {
+			stats["crosstalk"]++
+		}
+	}
 	if hung {
 		// cut: the blocked goroutines are abandoned, the partial trace is the observation
 		stats["hung"]++
@@ -486,6 +516,8 @@ func emitBuffer(id string, k bcaseT, r *hx.Rand, st *hx.Stats) string {
 	l.Sep()
 	if !ok {
 		l.Tok("X")
+	} else if stats["crosstalk"] > 0 {
+		l.Tok("Y")
 	} else {
 		l.Tok("T").Nat(len(trace))
 		for _, e := range trace {
